@@ -294,7 +294,8 @@ theorem C08_exact_in_full_json (H : Str) (t : Topo) (db : List Sig) (thr tol : R
   unfold jsonScanExact at h
   have hmem := List.mem_of_find?_eq_some h
   have hp := List.find?_some h
-  obtain ⟨s, hs, hr⟩ := List.mem_map.mp hmem
+  obtain ⟨s, hsf, hr⟩ := List.mem_map.mp hmem
+  have hs : s ∈ db := (List.mem_filter.mp hsf).1
   unfold jsonScanFull
   refine mem_alertsOf.mpr ⟨⟨s, hs, ?_⟩, ?_⟩
   · rw [← hr]; exact match_tol_indep H t s tol 0 (htol s hs)
